@@ -15,6 +15,10 @@ int main(int argc, char** argv) {
   assign(s, $S("ab")); concat(s, $S("cd")); expect(s, "abcd", "concat"); append(s, $S("")); expect(s, "abcd", "append empty");
   resize(s, 2); expect(s, "ab", "resize down"); resize(s, 5); expect(s, "ab", "resize up keeps the text");
   if (mem(s, $S("b")) != 1 || mem(s, $S("ba")) != 0 || mem(s, $S("")) != 1) { printf("REPRODUCED: mem disagrees with strstr\n"); bad = 1; }
+  /* cmp is the C library's order: bytes as unsigned char */
+  { const char* w[] = { "", "a", "ab", "b", "\x7f", "\x80", "caf\xc3\xa9", "cafz", "\xff", "z" };
+    for (int i = 0; i < 10; i++) for (int j = 0; j < 10; j++) { int c = cmp($S((char*)w[i]), $S((char*)w[j])), d = strcmp(w[i], w[j]);
+      if ((c < 0) != (d < 0) || (c > 0) != (d > 0)) { printf("REPRODUCED: cmp of two Strings (first bytes %d and %d) is %d, strcmp says %d\n", (unsigned char)w[i][0], (unsigned char)w[j][0], c, d); bad = 1; } } }
   /* operands overlapping the target's own buffer */
   { var t = new(String, $S("abcdef")); assign(t, $S(c_str(t) + 2)); expect(t, "cdef", "assign from a view of the target's own buffer"); }
   { var t = new(String, $S("abcdef")); assign(t, t); expect(t, "abcdef", "assign(s, s)"); }
